@@ -121,6 +121,7 @@ fn main() {
     let code = match args.cmd.as_str() {
         "random" => drivers::random(&args),
         "replay" => drivers::replay(&args),
+        "natural" => drivers::natural(&args),
         "tree" => drivers::trees(&args),
         _ => {
             eprintln!("usage: harness <random|replay|tree> --models F --out F [--seed N] ...");
